@@ -59,6 +59,9 @@ def variants(tier, half):
     if tier == "thorough" or half == "async":
         for ev in four:
             out.append((ev, False))
+    # identical events: every sender sends the very same event with the very same arguments
+    out.append(((("a",), ("a",), ("a",)), "anon"))
+    out.append(((("a", "a"), ("a",)), "anon"))
     return out
 
 
@@ -148,6 +151,43 @@ def check(env, sm, sender_tags, errors, deadlock, init_value="s0"):
     return None, tuple(order)
 
 
+PATTERN_A = ["before_transition", "on_exit_state", "on_transition", "on_enter_state",
+             "after_transition"]
+
+
+def check_anon(env, sm, n_sends, errors, deadlock):
+    """All senders send the identical event `a` (same arguments): instances cannot be told apart,
+    so the oracle counts - exactly n_sends complete, non-overlapping callback sequences, final
+    state advanced n_sends times, nothing stranded."""
+    if deadlock:
+        return deadlock
+    if errors:
+        t, e = errors[0]
+        return f"sender {t} raised {type(e).__name__}: {e}"
+    recs = [r for r in env.flat if r.event != "__initial__"]
+    for r in recs:
+        if not r.ended:
+            return f"{r.brief()} never finished"
+    names = [r.cid[1] for r in recs]
+    if names != PATTERN_A * n_sends:
+        k = len(names) // 5
+        return (f"O2 {n_sends} identical events were sent but the callbacks ran as {k} sequence(s)"
+                f"{'' if names == PATTERN_A * k else ' (interleaved: ' + str(names) + ')'}")
+    last_end = -1
+    for r in recs:
+        if r.seq_begin < last_end:
+            return f"O1 overlap at {r.brief()}"
+        last_end = r.seq_end
+    eng = sm._engine
+    pr = eng._processing
+    locked = pr.locked() if hasattr(pr, "locked") else bool(pr)
+    if len(eng._external_queue) or locked:
+        return f"O4 stranded: queue length {len(eng._external_queue)}, lock held {locked}"
+    if sm.current_state_value != f"s{n_sends % 3}":
+        return f"O5 final state {sm.current_state_value}, expected s{n_sends % 3}"
+    return None, ("anon", n_sends)
+
+
 # -- asyncio half -------------------------------------------------------------------------------
 
 def run_async(ch, events, nested, pre_activate):
@@ -156,9 +196,11 @@ def run_async(ch, events, nested, pre_activate):
     vl = VL()
     vl.reset(ch)
     impl = Impl(built, Cfg("async", True, False, "vinloop"),
-                plan=Plan(rules=RULE if nested else {}))
+                plan=Plan(rules=RULE if nested is True else {}))
     env = impl.env
-    tags = [[f"S{i}.{k}" for k in range(len(evs))] for i, evs in enumerate(events)]
+    anon = nested == "anon"
+    tags = [[("same" if anon else f"S{i}.{k}") for k in range(len(evs))]
+            for i, evs in enumerate(events)]
     errors = []
 
     async def sender(i):
@@ -187,7 +229,10 @@ def run_async(ch, events, nested, pre_activate):
     vl.drain_leftovers()
     if left and not deadlock:
         return f"after all senders returned: {'; '.join(left)}", None
-    r = check(env, impl.sm, tags, errors, deadlock)
+    if anon:
+        r = check_anon(env, impl.sm, sum(map(len, events)), errors, deadlock)
+    else:
+        r = check(env, impl.sm, tags, errors, deadlock)
     return r if isinstance(r, tuple) else (r, None)
 
 
@@ -196,14 +241,16 @@ def run_async(ch, events, nested, pre_activate):
 def run_threads(ch, events, nested, files, only_lines=None, stateful=False):
     built = machine(False)
     with tsched.patched_lock():
+        anon = nested == "anon"
         impl = Impl(built, Cfg("sync", True, False, "direct"),
-                    plan=Plan(rules=RULE if nested else {}))
+                    plan=Plan(rules=RULE if nested is True else {}))
         env = impl.env
         env.flat_mode = True
         env.yield_hook = tsched.yield_point
         impl.construct()
         env.top, env.flat, env.stack = [], [], []
-        tags = [[f"S{i}.{k}" for k in range(len(evs))] for i, evs in enumerate(events)]
+        tags = [[("same" if anon else f"S{i}.{k}") for k in range(len(evs))]
+                for i, evs in enumerate(events)]
         sm = impl.sm
 
         progress = [0] * len(events)
@@ -232,7 +279,10 @@ def run_threads(ch, events, nested, files, only_lines=None, stateful=False):
             s.run([body(i) for i in range(len(events))])
         finally:
             CUR.env = None
-    r = check(env, sm, tags, s.errors, s.deadlock)
+    if anon:
+        r = check_anon(env, sm, sum(map(len, events)), s.errors, s.deadlock)
+    else:
+        r = check(env, sm, tags, s.errors, s.deadlock)
     return (r if isinstance(r, tuple) else (r, None)) + (s.npoints,)
 
 
@@ -302,9 +352,9 @@ def explore_variant(res, half, vi, variant, tier, roots=None, root_run=True):
         total_sends = sum(map(len, events))
         if tier == "quick":
             # bound 2 where the default schedule is short (two single sends), else 1
-            bound = 2 if (n == 2 and total_sends == 2 and not nested) else 1
+            bound = 2 if (n == 2 and total_sends == 2 and nested is not True) else 1
         else:
-            bound = {2: 3 if (total_sends == 2 and not nested) else 2, 3: 2, 4: 1}[n]
+            bound = {2: 3 if (total_sends == 2 and nested is not True) else 2, 3: 2, 4: 1}[n]
         runs = [(None, lambda ch: run_threads(ch, events, nested, files)[:2])]
     for (pa, fn) in runs:
         st = {"msg": None, "choices": None, "orders": set()}
@@ -403,9 +453,9 @@ def run(tier, seed):
     # explicit-state, unbounded preemptions
     for vi, (events, nested) in enumerate(variants(tier, "threads")):
         n, total_sends = len(events), sum(map(len, events))
-        if n == 2 and (tier == "thorough" or (total_sends == 2 and not nested)):
+        if n == 2 and (tier == "thorough" or (total_sends == 2 and nested is not True)):
             blocks.append(("stateful-line", tier, vi, None))
-        if n == 2 or (n == 3 and tier == "thorough"):
+        if n == 2 or (n == 3 and (tier == "thorough" or nested == "anon")):
             blocks.append(("stateful-coarse", tier, vi, None))
     total, capped = run_blocks(worker, blocks, seed=seed)
     rep.add_violations(total.violations, total.hist_sig)
